@@ -1462,6 +1462,7 @@ func runMesh3Big(src *choice.Source, st *Stats) (fs []Finding) {
 		// edges at the spike (and a few others); afterwards every answer of the
 		// result - bounds included - must be that of its current faces
 		accepted, calls := 0, 0
+		st.MapDep = "EliminateEdges picks segments in the iteration order of a Go map"
 		res := m.EliminateEdges(func(tmp *model3d.Mesh, seg model3d.Segment) bool {
 			calls++
 			if calls <= 3 {
